@@ -16,8 +16,10 @@
      of the code (exists / isfile+R_OK / document_index+isdir+R_OK) are
      the input [fskind].
    * converters: int, float, str, uuid.UUID and tagged user callables;
-     [apply_conv] is exact on ASCII texts of the shapes the filters admit,
-     [CRaise] where Python certainly raises, [CUnknown] otherwise.
+     [apply_conv] is exact on the text shapes the filters let through
+     (Unicode decimal digits and white space included, by the table of U),
+     [CRaise] where Python certainly raises, [CUnknown] otherwise
+     (underscore digit grouping, exponents, inf/nan).
    * str.lower() is modelled on ASCII (filter names in routes are ASCII in
      the harness; inline :re: expressions are not affected because only
      membership in the filter table and the first four characters are
